@@ -31,16 +31,18 @@ def instances(tier, seed):
         for sk in SKELS:
             for second in ("same", "other"):
                 g = "core" if (tier == "thorough" or second == "same" or rng.random() < 0.3) else "ext"
-                out.append((g, dict(kind="use", spec=spec, skel=sk, second=second, maxrank=2)))
+                out.append((g, dict(kind="use", spec=spec, skel=sk, second=second, maxrank=2,
+                                    pre=rng.choice([None, None, "unbound-symbolic", "double-structured", "unbound-structure"]))))
     for form in ("bare-array", "structureless", "double-structured", "double-structured-deep", "union-outside"):
         for dims in ("?a", "*?v", "?a b"):
-            out.append(("core", dict(kind="misuse", form=form, dims=dims)))
+            for pre in (None, "unbound-symbolic", "double-structured"):
+                out.append(("core", dict(kind="misuse", form=form, dims=dims, pre=pre)))
     out.sort(key=lambda x: x[0] != "core")
     return out
 
 
 BOUNDS = dict(skeletons=SKELS, leaf_types=[repr(s) for s in SPECS], leaf_rank="as C08 (0..2 / natural rank), sizes unbounded",
-              sequence="t1 : PyTree[L,'T'];  x : Float[A,'a'] and Float[A,'*v'];  t2 : PyTree[L,'T'] (same / different skeleton)",
+              prelude="optionally an earlier structured-PyTree check that raises in its leaf loop (unbound symbolic axis / doubly structured / unbound structure name)", sequence="t1 : PyTree[L,'T'];  x : Float[A,'a'] and Float[A,'*v'];  t2 : PyTree[L,'T'] (same / different skeleton)",
               misuse=["bare-array", "structureless", "double-structured", "double-structured-deep", "union-outside"])
 STUBS = c01.STUBS
 ASSUMPTIONS = ["tree skeletons are selectors; jax tree_flatten / PyTreeDef equality run concretely",
@@ -69,6 +71,25 @@ def leaves_for(inst, V, tag, n, spec):
     return out
 
 
+def raising_prelude(inst, V):
+    """An earlier structured-PyTree check that raises in the middle of its leaf loop (it binds
+    nothing, so the reference state is unaffected)."""
+    import jaxtyping as jt
+    from jaxtyping import PyTree
+    pre = inst.get("pre")
+    if pre is None:
+        return
+    x = V.arr([V.int("z0", 0), V.int("z1", 0)])
+    y = V.arr([V.int("z2", 0), V.int("z3", 0)])
+    if pre == "unbound-symbolic":
+        got = c08.observe((x, y), PyTree[jt.Float[V.ARR, "?a zz+1"], "P"])
+    elif pre == "double-structured":
+        got = c08.observe((x, y), PyTree[PyTree[jt.Float[V.ARR, "?a _"], "Q"], "P"])
+    else:
+        got = c08.observe((x, (y,)), PyTree[jt.Float[V.ARR, "?a _"], "P NOPE"])
+    V.check("prelude-raises", got == "ERR", got=got, pre=pre)
+
+
 def scenario(inst, V):
     import jaxtyping as jt
     from jaxtyping import jaxtyped, PyTree
@@ -83,6 +104,7 @@ def scenario(inst, V):
     t1 = mk1(leaves_for(inst, V, "u", n1, spec))
     obs = {}
     with jaxtyped("context"):
+        raising_prelude(inst, V)
         B = D.Bindings()
         got = c08.observe(t1, ann)
         exp, B = T.tree_check(V, spec, t1, "T", B, V.ARR)
@@ -121,6 +143,7 @@ def scenario_misuse(inst, V):
     y = V.arr([V.int("n0", 0), V.int("n1", 0)][: len(inst["dims"].split())] if "*" not in inst["dims"] else [V.int("n0", 0)])
     form = inst["form"]
     with jaxtyped("context"):
+        raising_prelude(inst, V)
         if form == "bare-array":
             got = c08.observe(x, A)
         elif form == "structureless":
